@@ -162,6 +162,7 @@ class _Scope:
         self.cells = _cells(table) if kind == "function" and not is_comp else set()
         self.closure_reads = []
         self.aliases = set()        # locals bound by nothing but `x = <name>.<attr>...` (aliases of modules)
+        self.fname = None           # qualified name of the def / lambda this scope is the body of
 
     def reader(self):
         """the def / lambda whose code this scope belongs to (comprehensions belong to their enclosing code)"""
@@ -238,6 +239,7 @@ class ModuleTranslator:
         self.all_dynamic = False
         self.may = set()            # names that may be bound at module level (for the namespace upper bound)
         self.assumed = set()        # names bound on some path only of a module-level statement (assumed bound)
+        self.classdefs, self.raise_sites = [], []
         self.seen, self.deadset, self.uneval = set(), set(), set()      # translator coverage (node ids)
         self.coverage = {}
         self.future_annotations = False
@@ -342,6 +344,21 @@ class ModuleTranslator:
         lid = self.tr.intern(name + LOCAL_SUFFIX)
         owner.closure_reads.append(("attr", lid, [self.N(a) for a in chain]) if chain else ("load", lid))
 
+    def class_expr(self, node, scope):
+        """a base class / raised class as written: ("chain", root, [attrs]) when it is `name.a.b` and `name` is not
+        an ordinary local, else ("unknown",) -- resolved against the whole tree afterwards"""
+        c = self.chain_of(node)
+        if c is None:
+            return ("unknown",)
+        root, chain = c
+        if scope.kind != "module":
+            cl = self.classify(scope, root)
+            if scope.kind == "function" and cl not in ("global",):
+                return ("unknown",)
+            if scope.kind == "class" and cl != "global":
+                return ("unknown",)
+        return ("chain", root, chain)
+
     def note(self, kind, node, text=""):
         self.tr.stats[kind] = self.tr.stats.get(kind, 0) + 1
         self.tr.notes.append(f"{kind}: {self.modname}:{getattr(node, 'lineno', 0)} {text}"[:200])
@@ -420,6 +437,7 @@ class ModuleTranslator:
             self.seen.add(id(node))
             tab = scope.child("lambda", node.lineno)
             sub = _Scope("function", tab, scope.qual + "<lambda>.", _implocals(tab), parent=scope)
+            sub.fname = scope.qual + "<lambda>"
             body = []
             self.bind_params(a, sub, body)
             self.expr(node.body, sub, body)
@@ -556,7 +574,7 @@ class ModuleTranslator:
     def needs_region(scope, body):
         """must the effects of this block be dropped afterwards?  (module level: always; in a function: when it can
         bind something the resolver follows -- an import, or a local that inner functions read)"""
-        return scope.kind == "module" or bool(getattr(scope, "cells", ())) or any(
+        return scope.kind == "module" or bool(getattr(scope, "cells", ())) or bool(getattr(scope, "aliases", ())) or any(
             isinstance(n, (ast.Import, ast.ImportFrom)) for b in body for n in ast.walk(b))
 
     def dead(self, nodes):
@@ -711,6 +729,7 @@ class ModuleTranslator:
         qual = scope.qual + st.name
         sub = _Scope("function", tab, qual + ".<locals>.", _implocals(tab), parent=scope)
         sub.aliases = self.alias_locals(st, tab)
+        sub.fname = qual
         self.tr.stats["module_alias_locals"] = self.tr.stats.get("module_alias_locals", 0) + len(sub.aliases)
         evs = []
         self.bind_params(a, sub, evs)
@@ -744,6 +763,9 @@ class ModuleTranslator:
             self.expr([k.value for k in st.keywords], scope, out)
             tab = scope.child(st.name, st.lineno)
             sub = _Scope("class", tab, scope.qual + st.name + ".", parent=scope)
+            self.classdefs.append({"qual": scope.qual + st.name, "name": st.name, "line": st.lineno,
+                                   "bases": [self.class_expr(b, scope) for b in st.bases],
+                                   "top": scope.kind == "module"})
             self.stmts(st.body, sub, out)
             self.bind_def(st.name, scope, out)
         elif isinstance(st, ast.Assign) and len(st.targets) == 1 and isinstance(st.targets[0], ast.Name) \
@@ -835,12 +857,13 @@ class ModuleTranslator:
                 self.region(st.orelse, scope, out)
                 must = (self.must_binds(st.body) & self.must_binds(st.orelse)) if st.orelse else set()
                 self.assume(self.may_binds([st]), must, scope, out)
-                if scope.kind == "function" and not scope.is_comp and scope.cells:
-                    # locals that inner functions read: bound after the statement if every branch that goes on binds them
+                if scope.kind == "function" and not scope.is_comp and \
+                        (scope.cells or scope.implocals or scope.aliases):
+                    # followed locals: bound after the statement if every branch that goes on binds them
                     outs = [self.falls(b) for b in (st.body, st.orelse)]
                     live = [o for o in outs if o is not None]
                     if live:
-                        for n in sorted(set.intersection(*live) & scope.cells):
+                        for n in sorted(set.intersection(*live) & (scope.cells | scope.implocals | scope.aliases)):
                             out.append(("bind", self.LN(scope, n)))
         elif isinstance(st, (ast.With, ast.AsyncWith)):
             for it in st.items:
@@ -873,6 +896,12 @@ class ModuleTranslator:
                 self._emit_region(sub, c.body, scope, out)
             self.assume(self.may_binds([st]), set(), scope, out)
         else:   # Expr, Return, Raise, Assert, ...
+            if isinstance(st, ast.Raise) and st.exc is not None:
+                exc = st.exc.func if isinstance(st.exc, ast.Call) else st.exc
+                rd = scope.reader() if scope.kind == "function" else None
+                fname = rd.fname if rd is not None else None
+                self.raise_sites.append({"fn": fname or "<module>", "line": st.lineno, "what": self.class_expr(exc, scope),
+                                         "protocol": bool(fname) and fname.rsplit(".", 1)[-1] in PROTOCOL_METHODS})
             for child in ast.iter_child_nodes(st):
                 self.expr(child, scope, out)
 
@@ -1039,6 +1068,73 @@ class ModuleTranslator:
                     continue
                 out.append(("from", mid, self.N(a.name), self.LN(scope, asn)))
 
+    def static_table(self, tree):
+        """what the module-level names of this module denote, as far as the source says: a class of the module, a
+        module, a name imported from a module, or another name (for the resolution of base classes and of the
+        classes named by `raise`)"""
+        tab = {}
+
+        def visit(body):
+            for st in body:
+                if isinstance(st, ast.ClassDef):
+                    tab[st.name] = ("class", self.modname, st.name)
+                elif isinstance(st, (ast.FunctionDef, ast.AsyncFunctionDef)):
+                    tab[st.name] = ("other",)
+                elif isinstance(st, ast.Import):
+                    for a in st.names:
+                        if a.asname:
+                            tab[a.asname] = ("mod", a.name)
+                        else:
+                            tab[a.name.split(".")[0]] = ("mod", a.name.split(".")[0])
+                elif isinstance(st, ast.ImportFrom):
+                    if st.level:
+                        base = self.package.split(".")
+                        if st.level > 1:
+                            base = base[:-(st.level - 1)]
+                        dotted = ".".join(base + ([st.module] if st.module else []))
+                    else:
+                        dotted = st.module
+                    for a in st.names:
+                        if a.name != "*":
+                            tab[a.asname or a.name] = ("from", dotted, a.name)
+                elif isinstance(st, ast.Assign):
+                    for t in st.targets:
+                        if isinstance(t, ast.Name):
+                            c = self.chain_of(st.value)
+                            tab[t.id] = ("alias", c[0], c[1]) if c else ("other",)
+                elif isinstance(st, (ast.If, ast.Try, ast.With, ast.For, ast.While)):
+                    for fld in ("body", "orelse", "finalbody"):
+                        visit(getattr(st, fld, []) or [])
+                    for h in getattr(st, "handlers", []) or []:
+                        visit(h.body)
+        visit(tree.body)
+        return tab
+
+    def load_fast_checks(self, src):
+        """(qualified function name, variable) for every read of a local that CPython's compiler cannot prove bound"""
+        import dis
+        import types
+        out = []
+        with warnings.catch_warnings():
+            warnings.simplefilter("ignore")
+            top = compile(src, str(self.path), "exec", dont_inherit=True)
+
+        def walk(code):
+            for ins in dis.get_instructions(code):
+                if ins.opname == "LOAD_FAST_CHECK":
+                    q = code.co_qualname
+                    for suffix in (".<locals>.<genexpr>", ".<locals>.<listcomp>", ".<locals>.<setcomp>",
+                                   ".<locals>.<dictcomp>"):
+                        while q.endswith(suffix):
+                            q = q[: -len(suffix)]
+                    if (q, ins.argval) not in out:
+                        out.append((q, ins.argval))
+            for c in code.co_consts:
+                if isinstance(c, types.CodeType):
+                    walk(c)
+        walk(top)
+        return out
+
     def set_all(self, value, replace):
         try:
             v = ast.literal_eval(value)
@@ -1087,6 +1183,13 @@ class ModuleTranslator:
                     else:
                         c["missed"].append(f"{self.modname}:{getattr(node, 'lineno', 0)}:{ast.unparse(node)[:40]}")
         self.coverage = cov
+        self.table = self.static_table(tree)
+        self.maybe_unbound = self.load_fast_checks(src)
+        for node in ast.walk(tree):
+            if isinstance(node, ast.Call) and isinstance(node.func, ast.Attribute) \
+                    and isinstance(node.func.value, ast.Name) and node.func.value.id == "__all__":
+                self.all_dynamic = True         # __all__.extend(...) / .append(...): computed
+                self.all = None
         for node in ast.walk(tree):
             if isinstance(node, ast.Call) and isinstance(node.func, ast.Name) and node.func.id in ("vars", "locals") \
                     and not node.args:
@@ -1106,6 +1209,75 @@ class Translator:
         self.modid = {}
         self.modules = []
         self.ext = []          # third-party (and Python-2 only) modules imported by import-time code
+        self.mts = {}
+
+    def resolve_class(self, modname, ref, depth=0):
+        """("cls", index) | ("builtin", name) | ("unknown",) for a class expression as written in module `modname`"""
+        if ref[0] != "chain" or depth > 12:
+            return ("unknown",)
+        _, root, chain = ref
+        tab = self.mts[modname].table if modname in self.mts else {}
+        ent = tab.get(root)
+        if ent is None:
+            if not chain and hasattr(builtins, root):
+                return ("builtin", root)
+            return ("unknown",)
+        if ent[0] == "class":
+            return ("cls", self.class_index[(ent[1], ent[2])]) if not chain and (ent[1], ent[2]) in self.class_index \
+                else ("unknown",)
+        if ent[0] == "alias":
+            return self.resolve_class(modname, ("chain", ent[1], list(ent[2]) + list(chain)), depth + 1)
+        if ent[0] == "from":
+            return self.resolve_attr(ent[1], [ent[2]] + list(chain), depth + 1)
+        if ent[0] == "mod":
+            return self.resolve_attr(ent[1], list(chain), depth + 1)
+        return ("unknown",)
+
+    def resolve_attr(self, dotted, chain, depth):
+        """the class `dotted.a.b` where `dotted` is a module"""
+        if depth > 12 or not chain:
+            return ("unknown",)
+        if dotted == "builtins" and len(chain) == 1 and hasattr(builtins, chain[0]):
+            return ("builtin", chain[0])
+        if dotted not in self.mts:
+            return ("unknown",)
+        a, rest = chain[0], chain[1:]
+        if a in self.mts[dotted].table:
+            return self.resolve_class(dotted, ("chain", a, rest), depth + 1)
+        if f"{dotted}.{a}" in self.mts:
+            return self.resolve_attr(f"{dotted}.{a}", rest, depth + 1)
+        return ("unknown",)
+
+    def class_facts(self, modnames):
+        """every `class` statement with its bases, every `raise` that names a class, every possibly-unbound local
+        read -- resolved against the whole tree"""
+        self.class_index = {}
+        rows = []
+        for m in modnames:
+            for c in self.mts[m].classdefs:
+                if c["top"]:
+                    self.class_index[(m, c["name"])] = len(rows)
+                rows.append((m, c))
+
+        def enc(r):
+            return {"kind": r[0], "value": r[1] if len(r) > 1 else None}
+        classes = []
+        for m, c in rows:
+            classes.append({"mod": m, "name": c["qual"], "line": c["line"],
+                            "bases": [enc(self.resolve_class(m, b)) for b in c["bases"]],
+                            "is_lena_exc": c["top"] and m == "lena.core.exceptions"})
+        raises = []
+        for m in modnames:
+            for r in self.mts[m].raise_sites:
+                raises.append({"mod": m, "fn": r["fn"], "line": r["line"], "what": enc(self.resolve_class(m, r["what"])),
+                               "protocol": r["protocol"]})
+        maybe = []
+        for m in modnames:
+            for q, var in self.mts[m].maybe_unbound:
+                maybe.append({"mod": m, "fn": q, "var": var,
+                              "audited": (m, q, var) in AUDITED_MAYBE_UNBOUND,
+                              "reason": AUDITED_MAYBE_UNBOUND.get((m, q, var))})
+        return classes, raises, maybe
 
     def ext_id(self, top):
         if top not in self.ext:
@@ -1149,15 +1321,20 @@ class Translator:
             mt = ModuleTranslator(self, m, is_pkg, path)
             evs = mt.translate()
             parent = m.rpartition(".")[0]
+            self.mts[m] = mt
             mods.append({"name": m, "is_pkg": is_pkg, "parent": self.modid.get(parent) if parent else None,
                          "short": m.rpartition(".")[2], "all": mt.all, "all_dynamic": mt.all_dynamic,
                          "evs": evs, "funcs": mt.funcs, "main": False, "may": sorted(mt.may), "assumed": sorted(mt.assumed),
                          "coverage": mt.coverage,
                          "path": str(path.relative_to(self.repo))})
+        classes, raises, maybe = self.class_facts(names)
         lena_id = self.modid["lena"]
         for m in subpkgs:
             mid = self.modid[m]
-            evs = [("ensure", lena_id), ("ensure", mid), ("bindMod", self.intern("lena"), lena_id), ("star", mid)]
+            # `import lena.X`, then `from lena.X import *` in a region: it must work, but what it may load does not
+            # count as imported by `import lena.X` (the state the calls start from is the one after the plain import)
+            evs = [("ensure", lena_id), ("ensure", mid), ("bindMod", self.intern("lena"), lena_id),
+                   ("enter",), ("star", mid), ("leave",)]
             mods.append({"name": f"__main__[{m}]", "is_pkg": False, "parent": None, "short": f"__main__[{m}]",
                          "all": None, "all_dynamic": False, "evs": evs, "funcs": [], "main": True, "may": [], "assumed": [],
                          "entry_pkg": mid, "path": None})
@@ -1165,8 +1342,10 @@ class Translator:
         for m in subpkgs:
             evs += [("ensure", self.modid[m])]
         evs.append(("bindMod", self.intern("lena"), lena_id))
+        evs.append(("enter",))
         for m in subpkgs:
             evs.append(("star", self.modid[m]))
+        evs.append(("leave",))
         mods.append({"name": "__main__[all]", "is_pkg": False, "parent": None, "short": "__main__[all]", "all": None,
                      "all_dynamic": False, "evs": evs, "funcs": [], "main": True, "may": [], "assumed": [],
                      "entry_pkg": None, "path": None})
@@ -1178,6 +1357,20 @@ class Translator:
                 f["name_id"] = self.intern(f["name"])
         entries = [self.modid[x] for x in mains]
         self.renumber(mods, n_builtins)
+
+        def ref_ids(r):
+            if r["kind"] == "cls":
+                return ["cls", r["value"]]
+            if r["kind"] == "builtin":
+                return ["builtin", self.intern(r["value"])]
+            return ["unknown"]
+        for c in classes:
+            c["mod_id"], c["name_id"] = self.modid[c["mod"]], self.intern(c["name"])
+            c["base_ids"] = [ref_ids(b) for b in c["bases"]]
+        for r in raises:
+            r["mod_id"], r["fn_id"], r["what_ids"] = self.modid[r["mod"]], self.intern(r["fn"]), ref_ids(r["what"])
+        for u in maybe:
+            u["mod_id"], u["fn_id"], u["var_id"] = self.modid[u["mod"]], self.intern(u["fn"]), self.intern(u["var"])
         priv = [i for i, s in enumerate(self.intern.names) if s.startswith("_")]
         # the environments: which third-party modules of import-time code cannot be imported
         always = sum(1 << i for i, x in enumerate(self.ext) if x in PY2_ONLY)
@@ -1193,7 +1386,10 @@ class Translator:
                 envs.append(e)
         return {"repo": str(self.repo), "source_hash": hasher.hexdigest(), "names": self.intern.names,
                 "n_bindable": self.n_bindable, "ext": list(self.ext), "envs": envs, "venv_env": venv_env,
-                "slot_bits": (len(mods) + 2).bit_length(),
+                "slot_bits": (len(mods) + 2).bit_length(), "classes": classes, "raises": raises,
+                "maybe_unbound": maybe,
+                "exc_root": next((i for i, c in enumerate(classes) if c["is_lena_exc"] and c["name"] == "LenaException"),
+                                 None),
                 "always_absent": [x for x in self.ext if x in PY2_ONLY],
                 "n_builtins": n_builtins, "modules": mods, "entries": entries, "private": priv,
                 "subpackages": subpkgs, "stats": self.stats, "notes": self.notes,
@@ -1343,9 +1539,33 @@ def render_lean(facts):
         L.append(f"  parent := {parent}")
         L.append(f"  short := {m['short_id']}")
         L.append(f"  all := {allv}")
+        L.append(f"  allDynamic := {'true' if m.get('all_dynamic') else 'false'}")
         L.append(f"  evs := {_evs(m['evs'], 4)}")
         L.append(f"  funcs := [{', '.join(fnames)}]")
         L.append("")
+    def ref(r):
+        return {"cls": ".cls %s", "builtin": ".builtin %s"}.get(r[0], ".unknown%s") % (r[1] if len(r) > 1 else "")
+
+    def chunks(name, typ, rows):
+        L.append(f"def {name} : List {typ} := [")
+        for k, row in enumerate(rows):
+            code, _, comment = row.partition("  -- ")
+            L.append("  " + code + ("," if k + 1 < len(rows) else "") + ("  -- " + comment if comment else ""))
+        L.append("]")
+        L.append("")
+    b = lambda x: "true" if x else "false"
+    L.append("/-- every `class` statement: module, qualified name, line, bases, defined in lena/core/exceptions.py -/")
+    chunks("classFacts", "ClassFact",
+           [f"⟨{c['mod_id']}, {c['name_id']}, {c['line']}, [{', '.join(ref(x) for x in c['base_ids'])}], {b(c['is_lena_exc'])}⟩"
+            f"  -- {c['mod']}.{c['name']}" for c in facts["classes"]])
+    L.append("/-- every `raise` statement: module, function, line, the class it names, inside an attribute-protocol method -/")
+    chunks("raiseFacts", "RaiseFact",
+           [f"⟨{r['mod_id']}, {r['fn_id']}, {r['line']}, {ref(r['what_ids'])}, {b(r['protocol'])}⟩"
+            for r in facts["raises"]])
+    L.append("/-- every read of a local that CPython cannot prove bound: module, function, variable, audited -/")
+    chunks("unboundFacts", "UnboundFact",
+           [f"⟨{u['mod_id']}, {u['fn_id']}, {u['var_id']}, {b(u['audited'])}⟩  -- {u['mod']} {u['fn']} {u['var']}"
+            for u in facts["maybe_unbound"]])
     L.append("/-- the facts of the current working tree -/")
     L.append("def current : Facts where")
     L.append(f"  mods := [{', '.join('m%d' % i for i in range(len(facts['modules'])))}]")
@@ -1356,6 +1576,10 @@ def render_lean(facts):
     L.append(f"  slotBits := {facts['slot_bits']}")
     L.append(f"  absent := {facts['venv_env']}    -- as installed here")
     L.append(f"  envs := [{', '.join(map(str, facts['envs']))}]")
+    L.append("  classes := classFacts")
+    L.append(f"  excRoot := {'none' if facts['exc_root'] is None else 'some %d' % facts['exc_root']}")
+    L.append("  raises := raiseFacts")
+    L.append("  maybeUnbound := unboundFacts")
     L.append("")
     L.append("/-- third-party modules imported by import-time code (bit `i` of an environment: `ext[i]` is absent) -/")
     L.append("def ext : Array String := #[" + ", ".join(_lean_str(x) for x in facts["ext"]) + "]")
